@@ -32,9 +32,32 @@ type adLeaf struct {
 	O []int    `json:"o"` // ordinals: position of the ancestor at each depth in its list (same length as P)
 }
 
+// adpNode is one node of an attribute tree (spec/Adapter.tla, ATTRIBUTE TREES AND LOGVALUERS):
+// a leaf (kind K, value id V) or a group (G, Kids); Lv > 0 = handed over as a LogValuer whose
+// LogValue() has to be asked Lv times before the value - the leaf value or the group - appears.
+type adpNode struct {
+	Key  string    `json:"key"`
+	Lv   int       `json:"lv"`
+	G    bool      `json:"g"`
+	K    string    `json:"k"`
+	V    int       `json:"v"`
+	Kids []adpNode `json:"kids"`
+}
+
 type adShape struct {
-	Leaves  []adLeaf `json:"leaves"`
-	Valuers []string `json:"valuers"` // dotted group paths handed over as LogValuer
+	Tree []adpNode `json:"tree"`
+}
+
+// adpLeaves lists the leaves of a tree (kind and value id are all the decoding catalogue needs).
+func adpLeaves(nodes []adpNode, out []adLeaf) []adLeaf {
+	for _, n := range nodes {
+		if n.G {
+			out = adpLeaves(n.Kids, out)
+		} else {
+			out = append(out, adLeaf{K: n.K, V: n.V})
+		}
+	}
+	return out
 }
 
 type adOpt struct {
@@ -125,7 +148,7 @@ func adMain(args []string) int {
 	seen := map[string]bool{}
 	for _, shs := range [][]adShape{sc.RecShapes, sc.DerivShapes} {
 		for _, sh := range shs {
-			for _, lf := range sh.Leaves {
+			for _, lf := range adpLeaves(sh.Tree, nil) {
 				k := fmt.Sprintf("%s/%d", lf.K, lf.V)
 				if !seen[k] {
 					seen[k] = true
@@ -234,21 +257,42 @@ func (r *adRun) reset() {
 
 type adAnyT struct{ B string }
 
-type adValuer struct {
-	s     string
-	depth int
+// LogValuers: adpLV (value receiver) and *adpLVp (pointer receiver) hold the log/slog value they
+// resolve to after n rounds; a chain alternates between the two types.  The value may be a scalar or
+// a group whose members are LogValuers again - Value.Resolve() does not look into a group.
+type adpLV struct {
+	v logslog.Value
+	n int
 }
 
-func (v adValuer) LogValue() logslog.Value {
-	if v.depth > 0 { // a LogValuer that resolves to another LogValuer
-		return logslog.AnyValue(adValuer{v.s, v.depth - 1})
+func (l adpLV) LogValue() logslog.Value {
+	if l.n > 1 {
+		return logslog.AnyValue(&adpLVp{l.v, l.n - 1})
 	}
-	return logslog.StringValue(v.s)
+	return l.v
 }
 
-type adGroupValuer struct{ kids []logslog.Attr }
+type adpLVp struct {
+	v logslog.Value
+	n int
+}
 
-func (g adGroupValuer) LogValue() logslog.Value { return logslog.GroupValue(g.kids...) }
+func (l *adpLVp) LogValue() logslog.Value {
+	if l.n > 1 {
+		return logslog.AnyValue(adpLV{l.v, l.n - 1})
+	}
+	return l.v
+}
+
+func adpWrap(v logslog.Value, rounds int, ptr bool) logslog.Value {
+	if rounds <= 0 {
+		return v
+	}
+	if ptr {
+		return logslog.AnyValue(&adpLVp{v, rounds})
+	}
+	return logslog.AnyValue(adpLV{v, rounds})
+}
 
 func (r *adRun) off() int { return r.sc.Seed * 1000 }
 
@@ -281,9 +325,8 @@ func (r *adRun) vDur(id int) time.Duration {
 func (r *adRun) vTime(id int) time.Time {
 	return time.Date(1990+id%30, time.Month(1+id%12), 1+id%28, id%24, 7, 9, 100000000+id+r.off(), time.FixedZone("z", (id%5-2)*3600))
 }
-func (r *adRun) vAny(id int) string    { return fmt.Sprintf("any%dx", id+r.off()) }
-func (r *adRun) vErr(id int) string    { return fmt.Sprintf("err%dx", id+r.off()) }
-func (r *adRun) vValuer(id int) string { return fmt.Sprintf("lv%dx", id+r.off()) }
+func (r *adRun) vAny(id int) string { return fmt.Sprintf("any%dx", id+r.off()) }
+func (r *adRun) vErr(id int) string { return fmt.Sprintf("err%dx", id+r.off()) }
 
 // record times: catalogue instants far from "now", in several zones, with nanoseconds
 func (r *adRun) recTime(id int) time.Time {
@@ -313,56 +356,32 @@ func (r *adRun) leafAttr(key string, lf adLeaf) logslog.Attr {
 		return logslog.Any(key, adAnyT{r.vAny(lf.V)})
 	case "err":
 		return logslog.Any(key, errors.New(r.vErr(lf.V)))
-	case "valuer":
-		return logslog.Any(key, adValuer{r.vValuer(lf.V), lf.V % 2})
 	}
 	panic("unknown kind " + lf.K)
 }
 
-// buildAttrs turns the flattened leaves back into nested log/slog attributes.
-// Leaves of one group INSTANCE share key and ordinal at that depth: two groups with the same key
-// in one list stay two attributes, equal keys stay in the order given.
-func (r *adRun) buildAttrs(leaves []adLeaf, valuers map[string]bool, prefix []string) []logslog.Attr {
-	d := len(prefix)
-	var res []logslog.Attr
-	done := map[string]bool{}
-	for _, lf := range leaves {
-		key := lf.P[d]
-		if len(lf.P) == d+1 {
-			res = append(res, r.leafAttr(key, lf))
-			continue
-		}
-		inst := fmt.Sprintf("%s#%d", key, lf.O[d])
-		if done[inst] {
-			continue
-		}
-		done[inst] = true
-		var sub []adLeaf
-		for _, x := range leaves {
-			if len(x.P) > d+1 && x.P[d] == key && x.O[d] == lf.O[d] {
-				sub = append(sub, x)
-			}
-		}
-		np := append(append([]string{}, prefix...), key)
-		kids := r.buildAttrs(sub, valuers, np)
-		if valuers[strings.Join(np, ".")] {
-			res = append(res, logslog.Any(key, adGroupValuer{kids}))
+// buildAttrs turns a tree into log/slog attributes: groups stay nested, equal keys stay in the
+// order given, and every node with Lv > 0 is handed over as a LogValuer (asked Lv times) - a leaf, a
+// group, a member of a literal group or of a group another LogValuer resolves to, at any depth.
+func (r *adRun) buildAttrs(nodes []adpNode, depth int) []logslog.Attr {
+	res := make([]logslog.Attr, 0, len(nodes))
+	for i, n := range nodes {
+		var v logslog.Value
+		if n.G {
+			v = logslog.GroupValue(r.buildAttrs(n.Kids, depth+1)...)
 		} else {
-			res = append(res, logslog.Attr{Key: key, Value: logslog.GroupValue(kids...)})
+			v = r.leafAttr(n.Key, adLeaf{K: n.K, V: n.V}).Value
 		}
+		res = append(res, logslog.Attr{Key: n.Key, Value: adpWrap(v, n.Lv, (i+depth+n.Lv)%2 == 1)})
 	}
 	return res
 }
 
 func (r *adRun) shapeAttrs(sh adShape) []logslog.Attr {
-	v := map[string]bool{}
-	for _, s := range sh.Valuers {
-		v[s] = true
-	}
-	attrs := r.buildAttrs(sh.Leaves, v, nil)
+	attrs := r.buildAttrs(sh.Tree, 0)
 	// an optional-attribute helper returning the empty Attr (which a handler ignores) in the middle of the
 	// list: nothing is added by it and nothing after it is lost
-	if len(attrs) >= 2 && len(sh.Leaves)%3 == 1 {
+	if len(attrs) >= 2 && len(adpLeaves(sh.Tree, nil))%3 == 1 {
 		attrs = append(attrs[:1], append([]logslog.Attr{{}}, attrs[1:]...)...)
 	}
 	return attrs
@@ -708,8 +727,6 @@ func (r *adRun) identify(t adTok) (string, int) {
 			ok = strings.Contains(t.text, r.vAny(c.V))
 		case "err":
 			ok = strings.Contains(t.text, r.vErr(c.V))
-		case "valuer":
-			ok = t.text == r.vValuer(c.V)
 		}
 		if ok {
 			return c.K, c.V
